@@ -673,6 +673,11 @@ func checkC17(tier string, raceBin string) int {
 	collect(run, "C17", jobs, nil)
 	stackPass(run, "C17")
 	afterlifePass(run, "C17")
+	panicPass(run, "C17")
+	packageCounterPass(run, "C17", [][]int{{aRateNoWait, aEnabledNoWait, aWaitAcks, aClose}, {aPIDWait, aRateNoWait, aWaitAcks, aGetRules, aClose}, {aGetStatusSelf, aBacklogWait, aPIDNoWait, aWaitAcks, aClose}}, func(h []int) []Viol {
+		v, _, _, _ := execC17(h, envdfs.New(nil), ksim.Shape{})
+		return v
+	})
 	c17Scale(run)
 	c17TwoClients(run)
 	// concurrent Close: all interleavings
